@@ -128,6 +128,14 @@ int main ()
     long double want = atan2l (sy, sx); long double got = m.get_Estimate().val; long double diff = fabsl (remainderl (got - want, 2*M_PIl));
     O.put (dhex ((double) diff)); O.put (dhex ((double) hypotl (sx, sy))); };
 
+  // the same oracle under another name for inputs on which the direction clause does hold on the current code
+  // (mirror-symmetric pairs {+a, -a} of equal variance), so that the recorded finding does not mask them
+  OP("o.c12.mirror") { unsigned n=A.nat(); MeanRadian<double> m; bool first = true; long double sx = 0, sy = 0;
+    for (unsigned i=0;i<n;i++) { ED d=rdD(A); if (first) { m = d; first = false; } else m += d;
+      if (d.var != 0) { sx += cosl ((long double)d.val)/d.var; sy += sinl ((long double)d.val)/d.var; } }
+    long double want = atan2l (sy, sx); long double got = m.get_Estimate().val; long double diff = fabsl (remainderl (got - want, 2*M_PIl));
+    O.put (dhex ((double) diff)); O.put (dhex ((double) hypotl (sx, sy))); };
+
   // oracle: the circular mean accumulators are independent of order and grouping (to rounding): every permutation folded
   // sequentially and every two-way split merged; prints the largest relative deviation of the sine / cosine accumulators
   OP("o.c12.circ") { unsigned n=A.nat(); std::vector<ED> items; for (unsigned i=0;i<n;i++) items.push_back (rdD(A));
